@@ -60,7 +60,9 @@ def run_shard(pid, tier, seed, shard, nshards, n_cases, timeout):
            "--shard", f"{shard}/{nshards}", "--cases", str(n_cases)]
     env = dict(os.environ)
     env["PYTHONPATH"] = VERIF + os.pathsep + env.get("PYTHONPATH", "")
-    env.setdefault("PYTHONHASHSEED", "0")
+    # string hashing differs per shard (deterministically: shard k runs with PYTHONHASHSEED=k), so that behaviour of
+    # the repository that depends on set / dict iteration order is exercised under 16 orders instead of one
+    env["PYTHONHASHSEED"] = str(shard)
     try:
         p = subprocess.run(cmd, capture_output=True, text=True, timeout=timeout, env=env,
                            cwd=VERIF)
@@ -71,6 +73,7 @@ def run_shard(pid, tier, seed, shard, nshards, n_cases, timeout):
         if line.startswith("{"):
             try:
                 results.append(json.loads(line))
+                results[-1]["hashseed"] = shard
             except json.JSONDecodeError:
                 pass
     err = None
@@ -179,7 +182,8 @@ def main(argv=None):
         path = os.path.join(d, f"{args.tier}-{args.seed}-{r['idx']}-{tag}.json")
         with open(path, "w") as fh:
             json.dump({"property": pid, "tier": args.tier, "seed": args.seed, "idx": r["idx"],
-                       "case": r.get("case"), "violation": v}, fh, indent=1, default=str)
+                       "hashseed": r.get("hashseed", 0), "case": r.get("case"), "violation": v}, fh, indent=1,
+                      default=str)
         replay_paths.append(os.path.relpath(path, VERIF))
 
     if not args.no_evidence:
@@ -199,6 +203,7 @@ def main(argv=None):
                 "bins_detail": {b: sorted(s)[:64] for b, s in sorted(bins.items())
                                 if len(s) <= 64},
                 "skipped": skipped,
+                "string_hash_seeds": sorted({r.get("hashseed", 0) for r in results}),
                 "exhaustive": False,
                 "known_findings_seen": {m: n for m, (f, n, v) in known_hits.items()},
                 "verdict": ("violated" if violations else
@@ -240,10 +245,15 @@ def main(argv=None):
 
 
 def replay(pid, path):
-    from vmon import env  # noqa: F401
-    prop = load_prop(pid)
     with open(path) as fh:
         rec = json.load(fh)
+    want = str(rec.get("hashseed", 0))
+    if os.environ.get("PYTHONHASHSEED") != want:
+        # the case ran under this string-hash seed: re-run the replay in an interpreter started with it
+        e = dict(os.environ, PYTHONHASHSEED=want)
+        return subprocess.run([PY, "-m", "vmon.cli", pid, "--replay", path], env=e, cwd=VERIF).returncode
+    from vmon import env  # noqa: F401
+    prop = load_prop(pid)
     if rec.get("case") is None or rec["case"].get("post_run"):
         print(f"replay file {path} records a whole-run analysis; re-run the check with "
               f"VERIF_SEED={rec['seed']} --tier {rec['tier']}")
